@@ -170,7 +170,10 @@ pub struct Chain {
 }
 
 pub fn install_quiet_panic_hook() {
-    std::panic::set_hook(Box::new(|_| {}));
+    // contract panics are expected (wasm traps) and caught; DSIM_PANIC=1 shows them for debugging
+    if std::env::var("DSIM_PANIC").is_err() {
+        std::panic::set_hook(Box::new(|_| {}));
+    }
 }
 
 fn panic_text(p: &Box<dyn std::any::Any + Send>) -> String {
